@@ -1,4 +1,6 @@
 """C15 - queued SD entries are sent exactly once, in order, to the right peer, in time."""
+import random
+
 from .. import scen, stackprop
 
 CODES = {1: "entries transmitted to a destination differ from the entries queued for it (lost / duplicated / reordered / mixed)",
@@ -14,6 +16,8 @@ def run(ctx):
     ctx.assumptions = ["each batch is encodable (a batch needing an option index > 255 raises in send_sd and is lost as a whole: observation O3, outside the domain)"]
     n = 300 if quick else 10000
     scs = stackprop.corpus_scenarios("C15") + [scen.queue_scenario(r) for _ in range(n)]
+    rll = random.Random(ctx.seed * 7919 + 115)     # a stream of its own
+    scs += [scen.queue_scenario(rll, dests=[[301], [302], [301], [302], [1], None]) for _ in range(40 if quick else 1500)]     # destinations that agree in host and port (IPv6 scope ids)
     stackprop.run_scenarios(ctx, scs, 3015, CODES, what="send queue")
 
 
